@@ -197,6 +197,13 @@ def d_recipe(dsp, n, dt):
     vals = torch.tensor(dsp["vals"], dtype=F64)
     if dsp["kind"] == "diag_equal":
         vals = vals[..., :1].expand(*vals.shape[:-1], n)
+    if dsp["kind"] == "diag_near":
+        # NEARLY constant per-element noise (relative spread < 1e-5, exactly representable in float32): still a per-element D
+        k = (vals * 8.0).round() % 9
+        vals = vals[..., :1].expand(*vals.shape[:-1], n) * (1.0 + k * 2.0**-20)
+    if dsp["kind"] == "diag_tiny":
+        # per-element noise of absolute size ~1e-9 (below any absolute closeness tolerance) that differs by large factors
+        vals = vals * 2.0**-30
     return {"op": "Diag", "d": _lit(vals.contiguous(), dt)}
 
 
@@ -505,7 +512,7 @@ def cases(draw, tier):
         db = _sub_batch(draw, batch)
     else:
         db = draw(st.sampled_from([(2,) + tuple(batch), (3,) + tuple(batch)] + ([tuple(2 if x == 1 else x for x in batch)] if 1 in batch else [])))
-    kind = draw(st.sampled_from(["const", "diag", "diag", "diag_equal"]))
+    kind = draw(st.sampled_from(["const", "diag", "diag", "diag_equal", "diag_near", "diag_tiny"]))
     via = draw(st.sampled_from(["add_jitter", "add_diagonal", "plus", "swapped", "ctor", "ctor", "ctor"]))
     if via == "add_jitter":  # add_jitter takes one scalar
         kind, db = "const", ()
